@@ -37,7 +37,7 @@ func runC04(ctx *Ctx) {
 			c.Args["mode"] = rapid.SampledFrom([]string{"default", "deterministic"}).Draw(rt, "mode")
 			plen := rapid.SampledFrom([]int{0, 0, 1, 7, 64}).Draw(rt, "plen")
 			c.Args["prefix"] = hexs(rapid.SliceOfN(rapid.Byte(), plen, plen).Draw(rt, "prefix"))
-			c.Args["cap"] = strconv.Itoa(rapid.IntRange(0, 3).Draw(rt, "capclass"))
+			c.Args["cap"] = strconv.Itoa(rapid.IntRange(0, 4).Draw(rt, "capclass"))
 			switch rapid.IntRange(0, 5).Draw(rt, "inject") {
 			case 0:
 				p := model.BuildP(t, d.ProtoReflect())
@@ -100,6 +100,10 @@ func checkC04(ctx *Ctx, c *Case) error {
 	size := opts.Size(p)
 	out, err := opts.Marshal(p)
 	if err != nil {
+		if requiredErr(err) && model.HasRequired(t.Desc) {
+			ctx.Label("partial value after nil injection (required field unset): not marshalable, skipped")
+			return nil
+		}
 		return fmt.Errorf("Marshal failed: %v", err)
 	}
 	if size != len(out) {
@@ -125,13 +129,16 @@ func checkC04(ctx *Ctx, c *Case) error {
 	// MarshalAppend
 	prefix := unhex(c.arg("prefix"))
 	pristine := append([]byte{}, prefix...)
-	capExtra := []int{0, 1, size / 2, size + 16}[c.argInt("cap")%4]
+	capExtra := []int{0, 1, size / 2, size + 16, size}[c.argInt("cap")%5]
 	buf := make([]byte, len(prefix)+capExtra)
 	for i := range buf {
 		buf[i] = 0xAA // whatever was in the buffer before: spare capacity is not zeroed memory
 	}
 	buf = buf[:len(prefix)]
 	copy(buf, prefix)
+	if len(prefix) == 0 && capExtra == 0 && digest(c.Bytes, "nilbuf")%2 == 0 {
+		buf = nil // a nil buffer is a legal destination too
+	}
 	res, err := opts.MarshalAppend(buf, p)
 	if err != nil {
 		return fmt.Errorf("MarshalAppend failed: %v", err)
@@ -155,6 +162,26 @@ func checkC04(ctx *Ctx, c *Case) error {
 			d2, err := decodeD(t, tail)
 			if err != nil || canonD(d2.ProtoReflect()) != canonD(d.ProtoReflect()) {
 				return fmt.Errorf("MarshalAppend appended bytes that do not decode to the value (err=%v)", err)
+			}
+		}
+	}
+	// every combination of the three marshal options on one call (UseCachedSize
+	// after a Size call with the same options, as its contract requires)
+	for mask := 0; mask < 8 && !injected; mask++ {
+		mo := proto.MarshalOptions{Deterministic: mask&1 != 0, AllowPartial: mask&2 != 0, UseCachedSize: mask&4 != 0}
+		if mo.UseCachedSize {
+			_ = proto.MarshalOptions{Deterministic: mo.Deterministic, AllowPartial: mo.AllowPartial}.Size(p)
+		}
+		ob, err := mo.Marshal(p)
+		if err != nil {
+			return fmt.Errorf("Marshal with options %+v failed: %v", mo, err)
+		}
+		if len(ob) != size {
+			return fmt.Errorf("Marshal with options %+v produced %d bytes, Size is %d", mo, len(ob), size)
+		}
+		if mo.Deterministic {
+			if db, _ := det.Marshal(p); !bytes.Equal(ob, db) {
+				return fmt.Errorf("Marshal with options %+v differs from plain deterministic Marshal", mo)
 			}
 		}
 	}
